@@ -49,6 +49,28 @@ def positions(p):
     return [q for e in p.events if e.get("kind") == "f-call" for q in as_array(e["pos"]).reshape(-1)]
 
 
+class CrossPoly:
+    """cross-check spec whose symbolic side depends on the sampled polynomial coefficients (symbols a0..a_deg)"""
+
+    def __init__(self, name, paths, sample, scenario, deg, functions):
+        from wgvc.crosscheck import Cross
+        self.name, self.paths, self.scenario, self.rtol, self.compare = name, paths, scenario, 1e-6, None
+        self._sample, self._functions, self.deg = sample, functions, deg
+        self.result = lambda p: scalar(p.value)
+        self._cs = None
+
+    def functions(self, rnd):
+        nat, symf = self._functions(rnd)
+        self._cs = symf.pop("__coeffs__")
+        return nat, symf
+
+    def sample(self, rnd):
+        env = self._sample(rnd)
+        for k, c in enumerate(self._cs):
+            env[f"a{k}"] = c
+        return env
+
+
 def build(chk):
     chk.assume_note("rounding is not modelled: '(x + dx) - x == dx' holds exactly in the reals")
     c_derivative(chk)
@@ -80,6 +102,26 @@ def c_derivative(chk):
                 rets = sel(paths)
                 if not rets:
                     chk.undecided.append(f"derivative[{tag}]: no returning path")
+                if bounded:
+                    from wgvc.crosscheck import Cross
+
+                    def functions(rnd, deg=deg):
+                        cs = [rnd.uniform(-2, 2) for _ in range(deg + 1)]
+                        return ({"P": {"kind": "poly", "vars": 1, "terms": [[[k], c] for k, c in enumerate(cs)]}}, {"__coeffs__": cs})
+
+                    def sample(rnd, W=W):
+                        h_ = rnd.choice([1e-3, 1e-2, 0.1, 0.5])
+                        lo_ = rnd.uniform(-1, 1)
+                        hi_ = lo_ + (W + rnd.uniform(0, 3)) * h_
+                        pos = rnd.choice([0, 0.5, 1, 1.5, 2.5]) * h_
+                        x_ = rnd.choice([lo_ + pos, hi_ - pos, (lo_ + hi_) / 2])
+                        return {"x": x_, "h": h_, "lo": lo_, "hi": hi_}
+
+                    def scenario(env, n=n, order=order):
+                        return {"module": "WallGo.helpers", "method": "derivative", "self": None,
+                                "args": [{"__stub__": "callable", "fn": "P"}, env["x"]],
+                                "kwargs": {"n": n, "order": order, "dx": env["h"], "bounds": [env["lo"], env["hi"]]}}
+                    chk.cross(CrossPoly(f"helpers.derivative.n{n}.order{order}", paths, sample, scenario, deg, functions))
                 for i, p in enumerate(rets):
                     chk.vc(f"derivative.{tag}.exact.{i}", p.pc, Eq(scalar(p.value), exact), func=fn)
                     chk.canary(f"derivative.{tag}.exact.{i}", p.pc, Eq(scalar(p.value), exact + 1), func=fn)
